@@ -43,12 +43,16 @@ def main():
 
     if os.environ.get('VERIF_WERROR'):
         import warnings
+        # a process that treats warnings as errors (python -W error, CI settings): whatever mido warns about raises.
+        # Warnings attributed to the verification code itself or to Hypothesis stay silent.
         warnings.simplefilter('ignore')
         warnings.filterwarnings('error', module=r'mido(\.|$)')
+        warnings.filterwarnings('error', category=ResourceWarning)
+        warnings.filterwarnings('error', category=DeprecationWarning, module=r'mido(\.|$)')
     import mido
     repo = os.path.realpath(harness.REPO)
     if not os.path.realpath(mido.__file__).startswith(repo + os.sep):
-        print(f'harness error: mido imported from {mido.__file__}, expected under {repo}')
+        harness.say(f'harness error: mido imported from {mido.__file__}, expected under {repo}')
         return 2
 
     mod = importlib.import_module(MODULES[pid])
@@ -82,13 +86,13 @@ def main():
             case = {k: v for k, v in case.items() if k != '_interpreter'}
         unknown = ctx.check(case, sample=True)
         for fl in unknown:
-            print(f'  failure clause={fl["clause"]} sig={fl["sig"]}: {fl["detail"][:1500]}')
+            harness.say(f'  failure clause={fl["clause"]} sig={fl["sig"]}: {fl["detail"][:1500]}')
         for ln in ctx.known_lines:
-            print(ln)
+            harness.say(ln)
         if unknown:
-            print(f'VIOLATION property={pid} replay={args.replay}')
+            harness.say(f'VIOLATION property={pid} replay={args.replay}')
             return 1
-        print(f'[{pid}] replay passed')
+        harness.say(f'[{pid}] replay passed')
         return 0
 
     # committed regressions (shrunk cases of repaired defects and of earlier misses) run first
@@ -143,13 +147,13 @@ if __name__ == '__main__':
     try:
         rc = main()
     except harness.HarnessError as exc:
-        print('harness error:', exc)
+        harness.say('harness error:', exc)
         rc = 2
     except SystemExit:
         raise
     except BaseException:  # noqa: BLE001
         traceback.print_exc()
-        print('harness error: unexpected exception in the driver')
+        harness.say('harness error: unexpected exception in the driver')
         rc = 2
     sys.stdout.flush()
     sys.stderr.flush()
